@@ -48,8 +48,12 @@ type ftarget struct {
 	local    string // extracted value: the output name is <func>_<local>; also the name looked for when the role is not found
 	role     anchor // extracted value: where the function uses the value (the operand of a call ...); nil: by name only
 	weak     bool   // the role is a weak one: look for the name first, for the role only if no statement assigns that name
-	inputs   []cut  // with local: local variables that are parameters of the definition
+	inputs   []cut  // with local / a loop: local variables that are parameters of the definition
 	loopBody bool   // the body of the only top-level for loop, as a function of the variables declared before it
+	loopNth  int    // with loopBody / loopCond: the n-th (1-based) top-level for loop; statements before it other than `var x T` are skipped (their variables must be inputs)
+	withPost bool   // with loopBody: the loop's post statement runs after the body
+	loopCond bool   // the condition of the n-th top-level for loop
+	intFile  bool   // an integer kernel (Generated.v / Generated64.v): int64(math.Pow(2, float64(e))) is the integer idiom
 }
 
 // An anchor says which expression of the function body an extracted value is, by the part it plays: (index of the top-level statement
@@ -251,6 +255,109 @@ func indexedElement(nth, total int) cutRole {
 		}
 		return names[nth-1], true
 	}}
+}
+
+// the value of the field `field` in the composite literal the function's last top-level return statement returns
+func returnedField(field string) anchor {
+	return anchor{doc: "the field " + field + " of the returned composite literal", find: func(c *fctx, fd *ast.FuncDecl) (int, ast.Expr, bool) {
+		for i := len(fd.Body.List) - 1; i >= 0; i-- {
+			rs, ok := fd.Body.List[i].(*ast.ReturnStmt)
+			if !ok {
+				continue
+			}
+			if len(rs.Results) != 1 {
+				return 0, nil, false
+			}
+			e := unparen(rs.Results[0])
+			if u, ok := e.(*ast.UnaryExpr); ok && u.Op == token.AND {
+				e = unparen(u.X)
+			}
+			cl, ok := e.(*ast.CompositeLit)
+			if !ok {
+				return 0, nil, false
+			}
+			for _, el := range cl.Elts {
+				if kv, ok := el.(*ast.KeyValueExpr); ok {
+					if id, ok := kv.Key.(*ast.Ident); ok && id.Name == field {
+						return i, unparen(kv.Value), true
+					}
+				}
+			}
+			return 0, nil, false
+		}
+		return 0, nil, false
+	}}
+}
+
+// the variable compared with 0 (`x > 0`) in the condition of the n-th top-level for loop
+func loopCounter(nth int) cutRole {
+	return cutRole{doc: fmt.Sprintf("the variable x of the test `x > 0` in the condition of the %d. top-level for loop", nth), find: func(c *fctx, fd *ast.FuncDecl) (string, bool) {
+		n := 0
+		for _, st := range fd.Body.List {
+			f, ok := st.(*ast.ForStmt)
+			if !ok {
+				continue
+			}
+			n++
+			if n != nth || f.Cond == nil {
+				continue
+			}
+			name := ""
+			ast.Inspect(f.Cond, func(nd ast.Node) bool {
+				if be, ok := nd.(*ast.BinaryExpr); ok && be.Op == token.GTR && name == "" {
+					if id, ok := unparen(be.X).(*ast.Ident); ok {
+						if lit, ok := unparen(be.Y).(*ast.BasicLit); ok && lit.Value == "0" {
+							name = id.Name
+						}
+					}
+				}
+				return true
+			})
+			return name, name != ""
+		}
+		return "", false
+	}}
+}
+
+// the bound z of the test `i < z` in the condition of the n-th top-level for loop
+func loopBound(nth int) cutRole {
+	return cutRole{doc: fmt.Sprintf("the bound z of the test `i < z` in the condition of the %d. top-level for loop", nth), find: func(c *fctx, fd *ast.FuncDecl) (string, bool) {
+		n := 0
+		for _, st := range fd.Body.List {
+			f, ok := st.(*ast.ForStmt)
+			if !ok {
+				continue
+			}
+			n++
+			if n != nth || f.Cond == nil {
+				continue
+			}
+			name := ""
+			ast.Inspect(f.Cond, func(nd ast.Node) bool {
+				if be, ok := nd.(*ast.BinaryExpr); ok && be.Op == token.LSS && name == "" {
+					if id, ok := unparen(be.Y).(*ast.Ident); ok {
+						name = id.Name
+					}
+				}
+				return true
+			})
+			return name, name != ""
+		}
+		return "", false
+	}}
+}
+
+// integer kernels found by their role: emitted over Z into Generated.v and in int64 mode into Generated64.v
+var itargets = []ftarget{
+	{pkg: "integrate", name: "NewHighSpatialID", local: "threshold", role: returnedField("threshold"), intFile: true},
+	{pkg: "transform", name: "convertHorizontalIDToQuadkey", loopCond: true, loopNth: 1, out: "convertHorizontalIDToQuadkey_condX", intFile: true,
+		inputs: []cut{{"xIndexTmp", "int64", loopCounter(1)}, {"hZoom", "int64", loopBound(1)}}},
+	{pkg: "transform", name: "convertHorizontalIDToQuadkey", loopBody: true, withPost: true, loopNth: 1, out: "convertHorizontalIDToQuadkey_stepX", intFile: true,
+		inputs: []cut{{"xIndexTmp", "int64", loopCounter(1)}, {"hZoom", "int64", loopBound(1)}}},
+	{pkg: "transform", name: "convertHorizontalIDToQuadkey", loopCond: true, loopNth: 2, out: "convertHorizontalIDToQuadkey_condY", intFile: true,
+		inputs: []cut{{"yIndexTmp", "int64", loopCounter(2)}, {"hZoom", "int64", loopBound(2)}}},
+	{pkg: "transform", name: "convertHorizontalIDToQuadkey", loopBody: true, withPost: true, loopNth: 2, out: "convertHorizontalIDToQuadkey_stepY", intFile: true,
+		inputs: []cut{{"yIndexTmp", "int64", loopCounter(2)}, {"hZoom", "int64", loopBound(2)}}},
 }
 
 const objectPkg = "common/object"
@@ -738,6 +845,10 @@ func (c *fctx) fx(sc *scope, e ast.Expr) (string, typ, *cval) {
 		c.fail(e, "%s literal %s", strings.ToLower(x.Kind.String()), x.Value)
 	case *ast.UnaryExpr:
 		a, ta := c.fxTyped(sc, x.X)
+		if c.t.m64 && ta.k != kF {
+			code, t := c.unary64(e, x.Op, a, ta)
+			return code, t, nil
+		}
 		switch {
 		case x.Op == token.SUB && ta.k == kF:
 			return "(PrimFloat.opp " + a + ")", ta, nil
@@ -784,12 +895,12 @@ func (c *fctx) fx(sc *scope, e ast.Expr) (string, typ, *cval) {
 			if x.Op == token.SHL || x.Op == token.SHR {
 				ta = typ{k: kZ}
 			} else {
-				ta = tb
+				ta = pureT(tb)
 			}
 			a = c.materialise(x.X, ca, ta)
 		}
 		if cb != nil {
-			tb = ta
+			tb = pureT(ta)
 			b = c.materialise(x.Y, cb, tb)
 		}
 		code, t := c.binary(e, x.Op, a, ta, b, tb)
@@ -838,6 +949,13 @@ func (c *fctx) fcall(sc *scope, x *ast.CallExpr) (string, typ) {
 		}
 		c.fail(x, "float64(..) of a %s", ta)
 	}
+	if len(x.Args) == 1 && isConv(sc, x.Fun, "int64") && c.intPow && c.isIntPow(sc, x.Args[0]) {
+		// an integer kernel: the idiom of the integer translator
+		if c.t.m64 {
+			return c.pow64(sc, x.Args[0])
+		}
+		return c.floatInt(sc, x.Args[0]), typ{k: kZ}
+	}
 	if len(x.Args) == 1 && isConv(sc, x.Fun, "int64") {
 		a, ta := c.fxTyped(sc, x.Args[0])
 		switch ta.k {
@@ -863,7 +981,9 @@ func (c *fctx) fcall(sc *scope, x *ast.CallExpr) (string, typ) {
 	if s.results[0].k == kStruct {
 		c.fail(x, "call of %s returning a struct used as a value", exprString(x.Fun))
 	}
-	return code, s.results[0]
+	rt := s.results[0]
+	rt.m = c.t.m64
+	return code, rt
 }
 
 func (c *fctx) mathCall(sc *scope, x *ast.CallExpr, name string) (string, typ) {
@@ -967,6 +1087,9 @@ func (c *fctx) fstructType(p *pkgInfo, name string, st *ast.StructType, at ast.N
 	for _, f := range st.Fields.List {
 		ft, ok := f.Type.(*ast.Ident)
 		if !ok || len(f.Names) == 0 || (ft.Name != "int64" && ft.Name != "float64") {
+			if c.lenient {
+				continue // the fields of other types are not variables of the translation: any use is an error
+			}
 			c.fail(at, "struct type %s has a field that is not a named int64 or float64 field", name)
 		}
 		for _, n := range f.Names {
@@ -977,6 +1100,9 @@ func (c *fctx) fstructType(p *pkgInfo, name string, st *ast.StructType, at ast.N
 				r.ftypes = append(r.ftypes, typ{k: kZ})
 			}
 		}
+	}
+	if len(r.fields) == 0 {
+		c.fail(at, "struct type %s has no int64 or float64 field", name)
 	}
 	return r
 }
@@ -1037,7 +1163,10 @@ func (c *fctx) structFields(sc *scope, cl *ast.CompositeLit, t typ) []string {
 			if len(cl.Elts) != len(t.fields) {
 				c.fail(cl, "positional composite literal with %d of %d fields", len(cl.Elts), len(t.fields))
 			}
-			code, _ := c.exprAs(sc, el, t.fieldType(i))
+			code, tf := c.exprAs(sc, el, t.fieldType(i))
+			if tf.m {
+				c.fail(el, "arithmetic inside a composite literal (int64 mode: assign it to a variable first)")
+			}
 			vals[t.fields[i]] = code
 			continue
 		}
@@ -1054,7 +1183,10 @@ func (c *fctx) structFields(sc *scope, cl *ast.CompositeLit, t typ) []string {
 		if _, dup := vals[key.Name]; idx < 0 || dup {
 			c.fail(cl, "composite literal field %s", key.Name)
 		}
-		code, _ := c.exprAs(sc, kv.Value, t.fieldType(idx))
+		code, tf := c.exprAs(sc, kv.Value, t.fieldType(idx))
+		if tf.m {
+			c.fail(kv.Value, "arithmetic inside a composite literal (int64 mode: assign it to a variable first)")
+		}
 		vals[key.Name] = code
 	}
 	var rs []string
@@ -1105,14 +1237,14 @@ func (c *fctx) fassign(x *ast.AssignStmt, sc *scope) (string, bool) {
 				if cb != nil {
 					b, tb = c.materialise(x.Rhs[0], cb, ft), ft
 				}
-				code, _ := c.binary(x, op, name, ft, b, tb)
-				return "let " + name + " := " + code + " in\n", true
+				code, tcode := c.binary(x, op, name, ft, b, tb)
+				return c.let(name, code, tcode), true
 			}
 			if x.Tok != token.ASSIGN {
 				c.fail(x, "assignment operator %s on a field", x.Tok)
 			}
-			code, _ := c.exprAs(sc, x.Rhs[0], ft)
-			return "let " + name + " := " + code + " in\n", true
+			code, tcode := c.exprAs(sc, x.Rhs[0], ft)
+			return c.let(name, code, tcode), true
 		}
 		if id, ok := x.Lhs[0].(*ast.Ident); ok && (x.Tok == token.DEFINE || x.Tok == token.ASSIGN) {
 			if cl, t := c.structLiteral(sc, x.Rhs[0]); cl != nil {
@@ -1145,8 +1277,8 @@ func (c *fctx) fassign(x *ast.AssignStmt, sc *scope) (string, bool) {
 				} else {
 					b, tb = c.fxAs(sc, x.Rhs[0], v.t)
 				}
-				code, _ := c.binary(x, op, v.coq, v.t, b, tb)
-				return "let " + v.coq + " := " + code + " in\n", true
+				code, tcode := c.binary(x, op, v.coq, v.t, b, tb)
+				return c.let(v.coq, code, tcode), true
 			}
 		}
 	}
@@ -1252,13 +1384,18 @@ func (c *fctx) phiIf(x *ast.IfStmt, sc *scope) string {
 		nodes = append(nodes, x.Else)
 	}
 	names := c.assignedIn(isc, nodes)
+	if tc.m {
+		n := c.tmp()
+		pre += n + " <- " + cond + " ;;\n"
+		cond = n
+	}
 	branch := func(name string) (string, string) {
-		k := func() string { return name }
+		k := func() string { return c.retValue(name) }
 		th := c.block(x.Body.List, newScope(isc), k)
 		var el string
 		switch e := x.Else.(type) {
 		case nil:
-			el = name
+			el = c.retValue(name)
 		case *ast.BlockStmt:
 			el = c.block(e.List, newScope(isc), k)
 		case *ast.IfStmt:
@@ -1275,11 +1412,11 @@ func (c *fctx) phiIf(x *ast.IfStmt, sc *scope) string {
 	}
 	if len(names) == 1 {
 		th, el := branch(names[0])
-		return pre + "let " + names[0] + " := if " + cond + "\nthen (" + th + ")\nelse (" + el + ") in\n"
+		return pre + c.let(names[0], "if "+cond+"\nthen ("+th+")\nelse ("+el+")", typ{m: c.t.m64})
 	}
 	// several variables: one conditional on the tuple
 	th, el := branch(tuple(names))
-	return pre + "let " + pattern(names) + " := if " + cond + "\nthen (" + th + ")\nelse (" + el + ") in\n"
+	return pre + c.let(pattern(names), "if "+cond+"\nthen ("+th+")\nelse ("+el+")", typ{m: c.t.m64})
 }
 
 // ---------------------------------------------------------------------------------------------------------------
@@ -1344,10 +1481,12 @@ func writesOf(c *fctx, s ast.Stmt) map[string]bool {
 				root(y.X)
 			}
 		case *ast.CallExpr:
-			// x.M(..) on a variable: a method with a pointer receiver may write x
+			// x.M(..) on a variable: a method with a pointer receiver may write x (not if every method M of the packages in sight has a value receiver)
 			if sel, ok := y.Fun.(*ast.SelectorExpr); ok {
 				if id, ok := unparen(sel.X).(*ast.Ident); !ok || c.imp[id.Name] == "" {
-					root(sel.X)
+					if !c.onlyValueReceivers(sel.Sel.Name) {
+						root(sel.X)
+					}
 				}
 			}
 		case *ast.RangeStmt:
@@ -1375,6 +1514,40 @@ func writesOf(c *fctx, s ast.Stmt) map[string]bool {
 		return true
 	})
 	return m
+}
+
+// is M the name of at least one method, and of methods with value receivers only, in this package and the module packages its file imports?
+func (c *fctx) onlyValueReceivers(m string) bool {
+	dirs := []string{c.pkg.dir}
+	var names []string
+	for n := range c.imp {
+		names = append(names, n)
+	}
+	sort.Strings(names)
+	for _, n := range names {
+		if d := c.imp[n]; !strings.HasPrefix(d, "\x00") {
+			dirs = append(dirs, d)
+		}
+	}
+	found := false
+	for _, d := range dirs {
+		p := c.t.load(d)
+		for key, fds := range p.funcs {
+			if !strings.HasSuffix(key, "."+m) {
+				continue
+			}
+			for _, fd := range fds {
+				if fd.Recv == nil || len(fd.Recv.List) == 0 {
+					continue
+				}
+				if _, ptr := fd.Recv.List[0].Type.(*ast.StarExpr); ptr {
+					return false
+				}
+				found = true
+			}
+		}
+	}
+	return found
 }
 
 // the statements among body[:upto] the value of e just before body[upto] depends on (upto = len(body): at the end of the function)
@@ -1468,7 +1641,7 @@ func (t *translator) fglobal(name, origin string) {
 }
 
 func (t *translator) ffunction(tg ftarget, from ast.Node) *sig {
-	key := fmt.Sprintf("F|%s|%s|%s|%s|%v", tg.pkg, tg.recv, tg.name, tg.local, tg.loopBody)
+	key := fmt.Sprintf("F|%s|%s|%s|%s|%v|%d|%v", tg.pkg, tg.recv, tg.name, tg.local, tg.loopBody, tg.loopNth, tg.loopCond)
 	if s, ok := t.fsigs[key]; ok {
 		return s
 	}
@@ -1504,9 +1677,9 @@ func (t *translator) ffunction(tg ftarget, from ast.Node) *sig {
 	defer delete(t.inProgress, key)
 	t.fused[p.names[p.fileOf[fd]]] = true
 
-	partial := tg.local != "" || tg.loopBody
+	partial := tg.local != "" || tg.loopBody || tg.loopCond
 	c := &fctx{t: t, pkg: p, imp: t.imports(p.files[p.fileOf[fd]]), label: label, declPos: map[token.Pos]string{}, nameCnt: map[string]int{},
-		body: fd.Body, fmode: true, partial: partial}
+		body: fd.Body, fmode: true, partial: partial, intPow: tg.intFile, lenient: tg.intFile && partial}
 	if tg.local != "" {
 		c.label = label + " (value " + tg.local + ")"
 	}
@@ -1607,12 +1780,9 @@ func (t *translator) ffunction(tg ftarget, from ast.Node) *sig {
 		}
 	}
 
-	var body, retType, kindNote string
-	pre := ""
-	switch {
-	case tg.local != "":
-		cuts := map[string]bool{}
-		var cutNotes []string
+	cuts := map[string]bool{}
+	var cutNotes []string
+	bindInputs := func() {
 		for _, in := range tg.inputs {
 			name := in.name
 			if in.role.find != nil {
@@ -1641,6 +1811,12 @@ func (t *translator) ffunction(tg ftarget, from ast.Node) *sig {
 			bind(v.coq, ty)
 			cutNotes = append(cutNotes, name)
 		}
+	}
+	var body, retType, kindNote string
+	pre := ""
+	switch {
+	case tg.local != "":
+		bindInputs()
 		// results are not variables of a slice unless they are named
 		if fd.Type.Results != nil {
 			for _, f := range fd.Type.Results.List {
@@ -1707,8 +1883,11 @@ func (t *translator) ffunction(tg ftarget, from ast.Node) *sig {
 			default:
 				failf("%s: function %s: unsupported construct: the extracted value %s has type %s", relpos(fd.Pos()), c.label, exprString(target), t)
 			}
-			rt = t
-			return code
+			rt = pureT(t)
+			if t.m {
+				return code
+			}
+			return c.retValue(code)
 		})
 		s.results = []typ{rt}
 		retType = rt.coq()
@@ -1716,20 +1895,29 @@ func (t *translator) ffunction(tg ftarget, from ast.Node) *sig {
 		if len(cutNotes) > 0 {
 			kindNote += ", as a function of the parameters and of the value of " + strings.Join(cutNotes, ", ")
 		}
-	case tg.loopBody:
+	case tg.loopBody || tg.loopCond:
 		var loop *ast.ForStmt
 		var before []ast.Stmt
+		nloops := 0
 		for _, st := range fd.Body.List {
 			if f, ok := st.(*ast.ForStmt); ok {
-				if loop != nil {
+				nloops++
+				if tg.loopNth == 0 && loop != nil {
 					c.fail(f, "a second top-level for loop")
 				}
-				loop = f
-			} else if loop == nil {
+				if loop == nil && (tg.loopNth == 0 || nloops == tg.loopNth) {
+					loop = f
+					continue
+				}
+			}
+			if loop == nil {
 				before = append(before, st)
 			}
 		}
 		if loop == nil {
+			if tg.loopNth > 0 {
+				c.fail(fd, "no %d. top-level for loop (%d found)", tg.loopNth, nloops)
+			}
 			c.fail(fd, "no top-level for loop")
 		}
 		if escapes(loop.Body) {
@@ -1739,6 +1927,9 @@ func (t *translator) ffunction(tg ftarget, from ast.Node) *sig {
 		for _, st := range before {
 			ds, ok := st.(*ast.DeclStmt)
 			if !ok {
+				if tg.loopNth > 0 {
+					continue // whatever these statements define must be an input
+				}
 				c.fail(st, "statement of kind %s before the loop (only `var x T` declarations are supported there)", nodeKind(st))
 			}
 			gd := ds.Decl.(*ast.GenDecl)
@@ -1755,7 +1946,35 @@ func (t *translator) ffunction(tg ftarget, from ast.Node) *sig {
 				}
 			}
 		}
-		names := c.assignedIn(c.top, []ast.Node{loop.Body})
+		bindInputs()
+		which := "the function's for loop"
+		if tg.loopNth > 0 {
+			which = fmt.Sprintf("the function's %d. top-level for loop", tg.loopNth)
+		}
+		if tg.loopCond {
+			if loop.Cond == nil {
+				c.fail(loop, "for loop without a condition")
+			}
+			code, t := c.expr(c.top, loop.Cond)
+			if t.k != kBool {
+				c.fail(loop.Cond, "condition of type %s", t)
+			}
+			body = code
+			if !t.m {
+				body = c.retValue(code)
+			}
+			s.results = []typ{{k: kBool}}
+			retType = "bool"
+			kindNote = " — the condition of " + which
+			break
+		}
+		nodes := []ast.Node{loop.Body}
+		stmts := loop.Body.List
+		if tg.withPost && loop.Post != nil {
+			nodes = append(nodes, loop.Post)
+			stmts = append(append([]ast.Stmt{}, &ast.BlockStmt{List: loop.Body.List}), loop.Post)
+		}
+		names := c.assignedIn(c.top, nodes)
 		if len(names) == 0 {
 			c.fail(loop, "the loop body assigns no variable declared before the loop")
 		}
@@ -1769,7 +1988,7 @@ func (t *translator) ffunction(tg ftarget, from ast.Node) *sig {
 				s.results = append(s.results, s.params[i])
 			}
 		}
-		body = c.block(loop.Body.List, newScope(c.top), func() string { return tuple(state) })
+		body = c.block(stmts, newScope(c.top), func() string { return c.retValue(tuple(state)) })
 		retType = strings.Join(rts, " * ")
 		if len(rts) > 1 {
 			retType = "(" + retType + ")%type"
@@ -1778,7 +1997,11 @@ func (t *translator) ffunction(tg ftarget, from ast.Node) *sig {
 		for _, n := range state {
 			plain = append(plain, strings.TrimPrefix(n, "v_"))
 		}
-		kindNote = " — one pass through the body of the function's for loop: the new values of (" + strings.Join(plain, ", ") + ")"
+		kindNote = " — one pass through the body of " + which
+		if tg.withPost && loop.Post != nil {
+			kindNote += " and its post statement"
+		}
+		kindNote += ": the new values of (" + strings.Join(plain, ", ") + ")"
 	default:
 		if fd.Type.Results == nil || len(fd.Type.Results.List) == 0 {
 			failf("%s: function %s: unsupported construct: function without results", relpos(fd.Pos()), label)
@@ -1834,6 +2057,9 @@ func (t *translator) ffunction(tg ftarget, from ast.Node) *sig {
 	if s.libm {
 		binders = append([]string{"(" + libmVar + " : libm)"}, binders...)
 	}
+	if t.m64 {
+		retType = "(M " + retType + ")"
+	}
 	t.fglobal(s.coq, c.label)
 	def := fmt.Sprintf("(* %s  [%s]%s *)\nDefinition %s %s : %s :=\n%s%s.\n", c.label, p.names[p.fileOf[fd]], kindNote, s.coq, strings.Join(binders, " "), retType, pre, body)
 	t.ffuncs = append(t.ffuncs, def)
@@ -1854,6 +2080,14 @@ func (tg ftarget) coqName() string {
 		n += "_" + tg.local
 	}
 	return n
+}
+
+// the integer kernels found by role, into this translator's float-mode sink (t.ffuncs)
+func (t *translator) runExtracted(file string) {
+	for _, tg := range itargets {
+		tg := tg
+		t.try(file, tg.coqName(), func() { t.ffunction(tg, nil) })
+	}
 }
 
 func (t *translator) runFloat(abs string) string {
